@@ -242,7 +242,7 @@ func runOsRelease(r *hx.Run, rnd *hx.Rand, cfg hx.Config) {
 		opOsParse(r, []byte(s), true)
 		opOsDist(r, []byte(s))
 	}
-	n := cfg.N(600, 8000)
+	n := cfg.N(600, 15000)
 	for i := 0; i < n && !r.Stop(); i++ {
 		allowKnown := rnd.Chance(1, 10)
 		kvs, file := genOsFile(rnd, allowKnown)
